@@ -45,7 +45,7 @@ fn bj(b: &Universal2DBox) -> serde_json::Value {
 
 pub fn run(tier: Tier) -> Report {
     let rep = Report::new("C15", tier);
-    rep.set_rule("all unordered sets of <= 3 integer-cornered boxes on a 5-point lattice and of 4 on a 4-point lattice (thorough: also 3 on a 6-point lattice) against exact cell counting, all 6 orderings of each 3-set; enumerated near-degenerate families (identical, shared / collinear edges, right-angle rotations, the angle menu of C08, 1..8 boxes; crowds of 9..40 boxes - pairs, chains, an isolated row with a covered / overlapped tail - in the given order and rotated) against inclusion-exclusion with an independent convex clipper; every ordered set of 2-3 boxes of a 4-box rotated menu x 6 preparations per box (polygon generated, then moved / turned / resized in place, with and without generating it again). Non-trivial = at least two boxes overlap.");
+    rep.set_rule("all unordered sets of <= 3 integer-cornered boxes on a 5-point lattice and of 4 on a 4-point lattice (thorough: also 3 on a 6-point lattice) against exact cell counting, all 6 orderings of each 3-set; enumerated near-degenerate families (identical, shared / collinear edges, right-angle rotations, the angle menu of C08, 1..8 boxes; a rotated box across / inside an axis-aligned one (360 pairs); crowds of 9..40 boxes - pairs, chains, an isolated row with a covered / overlapped tail - in the given order and rotated) against inclusion-exclusion with an independent convex clipper; every ordered set of 2-3 boxes of a 4-box rotated menu x 6 preparations per box (polygon generated, then moved / turned / resized in place, with and without generating it again). Non-trivial = at least two boxes overlap.");
     rep.assume("exact integer cell counting / engine/src/geom.rs inclusion-exclusion; the crate's share is own/(area+1e-5), compared with tolerance 2e-5 + 1e-5/area");
     let evals = AtomicU64::new(0);
     let nontrivial = AtomicU64::new(0);
@@ -199,7 +199,42 @@ pub fn run(tier: Tier) -> Report {
             }
         }
     });
-        // crowds: 9..=40 boxes (more than one work chunk of the parallel stage), each overlapping at most two others;
+        // a rotated box across / inside an axis-aligned one (angle None): the rotated outline sticks out although
+    // the unrotated footprint of the same box would fit inside
+    {
+        let mut n = 0u64;
+        for (bw, bh) in [(6.0f32, 20.0f32), (10.0, 10.0), (12.0, 12.0)] {
+            let big = Universal2DBox::new(0.0, 0.0, None, bw / bh, bh);
+            for (w, h) in [(2.0f32, 18.0f32), (9.0, 9.0), (3.0, 9.0), (1.0, 11.0)] {
+                for ang in [PI / 2.0, PI / 4.0, 0.3, -1.0, PI] {
+                    for (ox, oy) in [(0.0f32, 0.0f32), (0.5, 0.25), (1.5, -0.5)] {
+                        let small = Universal2DBox::new(ox, oy, Some(ang), w / h, h);
+                        for order in 0..2 {
+                            let boxes = if order == 0 { vec![big.clone(), small.clone()] } else { vec![small.clone(), big.clone()] };
+                            n += 1;
+                            let polys: Vec<Vec<(f64, f64)>> = boxes.iter().map(|b| RBox::from_u(b).corners()).collect();
+                            match shares(&boxes) {
+                                Err(m) => rep.violation(Violation { key: "own-area/panic/rotated-in-upright".into(), what: m, replay: json!({"boxes":boxes.iter().map(bj).collect::<Vec<_>>()}) }),
+                                Ok(sv) => {
+                                    for i in 0..2 {
+                                        let area = RBox::from_u(&boxes[i]).area();
+                                        let exp = ((area - geom::covered_area(&polys[i], &[polys[1 - i].clone()])) / area).clamp(0.0, 1.0);
+                                        if !(sv[i] >= 0.0 && sv[i] <= 1.0) || (sv[i] as f64 - exp).abs() > 1e-4 {
+                                            rep.violation(Violation { key: "own-area/value/rotated-in-upright".into(), what: format!("box {i}: share {} expected {exp}", sv[i]), replay: json!({"boxes":boxes.iter().map(bj).collect::<Vec<_>>()}) });
+                                        }
+                                    }
+                                }
+                            }
+                        }
+                    }
+                }
+            }
+        }
+        evals.fetch_add(n, Ordering::Relaxed);
+        nontrivial.fetch_add(n, Ordering::Relaxed);
+        rep.extra("rotated_box_in_an_upright_box_pairs", json!(n));
+    }
+    // crowds: 9..=40 boxes (more than one work chunk of the parallel stage), each overlapping at most two others;
     // the reference considers only the neighbours that really intersect the box; every rotation of the input
     // order by 1 and by half the length gives the same share for the same box
     {
